@@ -397,7 +397,11 @@ type GhostUpdate struct {
 	Src    string
 	Expr   SExpr
 	When   string // before | after
+	Assume bool   // call-site assumption about an external callee (trusted, listed)
+	Seq    int    // declaration order
 }
+
+var anchorSeq int
 
 type GhostVar struct {
 	Name string
@@ -427,7 +431,9 @@ type FuncContract struct {
 	Trusted    bool
 	Safe       bool
 	Inline     bool
-	NoHeap     bool // callee does not modify caller-visible heap (assumed for externals; checked? no)
+	NoHeap     bool // callee does not modify caller-visible heap (checked for functions with bodies, assumed for externals)
+	WritesArg  int  // external callee writes (only) the object its N-th argument points to; -1 = none
+	CallsArg   int  // external callee invokes its N-th argument (a func literal) exactly once; -1 = none
 	GhostVars  []*GhostVar
 	Updates    []*GhostUpdate
 	Asserts    []*GhostUpdate // assert @anchor: expr (Var empty)
@@ -577,7 +583,7 @@ func (db *ContractDB) ParseContracts(file string, lines []string, lineNos []int,
 			key = normKey(key)
 			curF = db.Funcs[key]
 			if curF == nil {
-				curF = &FuncContract{Key: key, Loops: map[int]*LoopSpec{}, File: file, Line: ln}
+				curF = &FuncContract{Key: key, Loops: map[int]*LoopSpec{}, File: file, Line: ln, WritesArg: -1, CallsArg: -1}
 				db.Funcs[key] = curF
 			}
 			if m[1] != "" {
@@ -627,7 +633,7 @@ func (db *ContractDB) ParseContracts(file string, lines []string, lineNos []int,
 			} else {
 				return errf("bad ghost directive")
 			}
-		case "assert":
+		case "assert", "assume":
 			if err := finish(); err != nil {
 				return err
 			}
@@ -637,6 +643,10 @@ func (db *ContractDB) ParseContracts(file string, lines []string, lineNos []int,
 			gu, err := parseAnchored(rest, false)
 			if err != nil {
 				return errf("%v", err)
+			}
+			if word == "assume" {
+				gu.Assume = true
+				gu.When = "after"
 			}
 			curF.Asserts = append(curF.Asserts, gu)
 		case "fn":
@@ -749,7 +759,7 @@ func (db *ContractDB) ParseContracts(file string, lines []string, lineNos []int,
 					curF.Assigns = append(curF.Assigns, a)
 				}
 			}
-		case "pure", "trusted", "safe", "inline", "noheap":
+		case "pure", "trusted", "safe", "inline", "noheap", "writes_arg", "calls_arg":
 			if err := finish(); err != nil {
 				return err
 			}
@@ -757,6 +767,10 @@ func (db *ContractDB) ParseContracts(file string, lines []string, lineNos []int,
 				return errf("%s outside func", word)
 			}
 			switch word {
+			case "writes_arg":
+				fmt.Sscanf(rest, "%d", &curF.WritesArg)
+			case "calls_arg":
+				fmt.Sscanf(rest, "%d", &curF.CallsArg)
 			case "pure":
 				curF.Pure = true
 			case "trusted":
@@ -782,7 +796,8 @@ func (db *ContractDB) ParseContracts(file string, lines []string, lineNos []int,
 
 func parseAnchored(r string, isUpdate bool) (*GhostUpdate, error) {
 	// [before|after] @anchor[#k]: x = expr      or     @anchor: expr
-	gu := &GhostUpdate{When: "after"}
+	anchorSeq++
+	gu := &GhostUpdate{When: "after", Seq: anchorSeq}
 	if strings.HasPrefix(r, "before ") {
 		gu.When = "before"
 		r = strings.TrimSpace(r[7:])
